@@ -90,6 +90,8 @@ func NewGoroutineTaskManager(recordLen int, minimumRequiredPerCore int, cpuNum i
 }
 
 func (m *GoroutineTaskManager) HasError() bool {
+	m.grTaskMutex.Lock()
+	defer m.grTaskMutex.Unlock()
 	return m.err != nil
 }
 
@@ -102,6 +104,8 @@ func (m *GoroutineTaskManager) SetError(e error) {
 }
 
 func (m *GoroutineTaskManager) Err() error {
+	m.grTaskMutex.Lock()
+	defer m.grTaskMutex.Unlock()
 	return m.err
 }
 
